@@ -68,14 +68,16 @@ CLAIMED = {
    note=TRUST + "The theorem gives identity of exact (rational) traces; bit-for-bit identity of floats is established between implementation runs. Alpha models in the model: fixed, universe-driven, top-N momentum, SMA trend (the harness also runs a volatility-filter alpha, implementation-side only). A NaN price reaching a signal window is out of model.",
    design="7/C07", technique="Coq proof by induction over the (sorted) event list of the session model + model/implementation correspondence check"),
  'C08': dict(
-   text="PARTIAL proof + correspondence to an independent executable specification. Spec.v is a naive simulator of the documented rules that "
-        "shares nothing with Broker/PCM/Backtest; every run compares real fixed-weight sessions (both sizers, all schedules, fees, burn-in) "
-        "with Spec.spec_run on fills (time, asset, quantity, price, commission), final cash and holdings and daily equity, and with the session "
-        "model. Machine-checked (props/C08.v): the per-step commutation lemmas of the refinement session-model -> Spec (order execution incl. "
-        "price and commission, sells-first order, equity = cash + marked holdings, the sizing formulas, orders = target - holdings) and one "
-        "concrete instance of the full statement by vm_compute. The composition over the whole event loop is NOT yet a theorem.",
-   note=TRUST + "Level: the full refinement theorem (backtest_refines_spec) is missing; its statement is written out in props/C08.v and its lemmas are named ..._partial. Assurance for the whole-run claim comes from the correspondence runs against Spec.",
-   design="7/C08", technique="executable specification in Coq + per-step refinement lemmas (proved) + implementation-vs-specification correspondence check"),
+   text="Refinement proof to an independent executable specification. Spec.v is a naive day-by-day simulator of the documented rules that "
+        "shares nothing with Broker/PCM/Sizer/Backtest except the calendar and numeric primitives. Machine-checked (props/C08.v, theorem "
+        "backtest_refines_spec, proved in proofs/SpecLists, SpecSizing, SpecBroker, SpecRun by a simulation relation on cash, holdings and "
+        "pending orders, induction over the business days): for every fixed-weight configuration (any static universe, weight vector with "
+        "distinct keys, sizing mode, fee model, schedule, burn-in, dates, cash) and every market, a session that does not raise agrees with "
+        "Spec.spec_run on every fill (time, asset, quantity, price, commission), on the times and values of daily equity and on final cash, "
+        "holdings and pending orders. Tied to /repo on every run: real fixed-weight sessions (both sizers, all schedules, fees, burn-in) are "
+        "compared with Spec.spec_run and with the session model.",
+   note=TRUST + "The theorem is conditional on the session trace carrying no error (a run that raises is outside the statement); rational values computed through different but equal expressions (equity, cash) are related by == on Q.",
+   design="7/C08", technique="executable specification in Coq + refinement proof (simulation relation, induction over days) + implementation-vs-specification correspondence check"),
  'C14': dict(
    text="Machine-checked theorems (props/C14.v) on the session model: in every error-free run the allocation rows are stamped with exactly the "
         "clock instants that are scheduled and not before burn-in, the equity points with exactly the market closes not before burn-in; fills "
